@@ -30,6 +30,7 @@ def main():
                 drivers.append(d)
                 targets.append("Extract/Extract%s.vo" % d)
         targets += list(getattr(mod, "EXTRA_TARGETS", ()))
+        targets += ["Props/%s.vo" % e for e in getattr(mod, "EXTRA_PROPS", ())]
     os.makedirs(common.ML, exist_ok=True)
     rc, out = common.sh("timeout 3400 make -j16 %s" % " ".join(sorted(set(targets))), cwd=common.COQ, timeout=3500)
     print(out[-3000:])
